@@ -283,7 +283,10 @@ _ALSO = {
     "C08": ("for 240 (token text, option values) cases over representative letter-initial texts {nil, t, x, nil:, t:, x:, "
             "...} the token produced is exactly the documented one (postfix keyword first, then nil, then t, else symbol); "
             "parse_token may be split into loop-free helpers, the evaluation looks through them; on the leading-digit path "
-            "the token reaches the numeric sub-parser without a textual pre-filter (shared with C02).",
+            "the token reaches the numeric sub-parser without a textual pre-filter (shared with C02); each Options builder method, "
+            "evaluated over the options' finite domains (23 prior states, every argument value, arrays and slices of "
+            "keyword spellings; 782 cases), makes the accessor of its option answer the argument and leaves every other "
+            "accessor's answer unchanged - with_keyword_syntax adds a spelling, with_keyword_syntaxes sets the list.",
             "conditional constant propagation of parse_token (and the loop-free helpers it is split into) over first bytes, "
             "option values and representative token texts; dominance / call-site audits"),
     "C09": ("a sign followed by a character the macro joins is a symbol for the text parser too (two open findings: `-.`, "
